@@ -106,6 +106,7 @@ proof fn lemma_push_toks(t: Seq<BEv>, raw: Seq<LexToken>, src: Seq<char>, pos: i
     ensures bdepth(push_toks(t, raw, src, pos, n)) == bdepth(t),
         btoks(push_toks(t, raw, src, pos, n)) == raw_prefix(raw, src, pos + n),
         binside(t) ==> binside(push_toks(t, raw, src, pos, n)),
+        t.len() >= 1 ==> push_toks(t, raw, src, pos, n).len() >= 1 && push_toks(t, raw, src, pos, n)[0] == t[0],
     decreases n
 {
     if n > 0 {
@@ -151,6 +152,8 @@ proof fn lemma_eat(t: Seq<BEv>, raw: Seq<LexToken>, src: Seq<char>, pos: int, n:
         btoks(push_toks(t, raw, src, pos, n)) == raw_prefix(raw, src, pos + n),
         binside(t) ==> binside(push_toks(t, raw, src, pos, n)),
         n_real(raw, pos + n) == n_real(raw, pos),
+        t.len() >= 1 ==> push_toks(t, raw, src, pos, n).len() >= 1 && push_toks(t, raw, src, pos, n)[0] == t[0]
+            && (pos + n + 1 <= raw.len() ==> push_toks(t, raw, src, pos, n + 1).len() >= 1 && push_toks(t, raw, src, pos, n + 1)[0] == t[0]),
         ((pos + n < raw.len() ==> !is_trivia_spec(raw[pos + n].kind)) && n_real(raw, pos) + 1 <= n_real(raw, raw.len() as int)) ==> {
             &&& pos + n + 1 <= raw.len()
             &&& bdepth(push_toks(t, raw, src, pos, n + 1)) == bdepth(t)
@@ -166,6 +169,8 @@ proof fn lemma_eat(t: Seq<BEv>, raw: Seq<LexToken>, src: Seq<char>, pos: int, n:
     if pos + n < raw.len() && !is_trivia_spec(raw[pos + n].kind) {
         assert(pos + n <= pos + n < raw.len() && !is_trivia_spec(raw[pos + n].kind));
         lemma_n_real_mono(raw, pos + n, pos + n + 1);
+        lemma_push_toks(t, raw, src, pos, n + 1);
+    } else if pos + n + 1 <= raw.len() {
         lemma_push_toks(t, raw, src, pos, n + 1);
     }
     lemma_push_toks(t, raw, src, pos, n);
